@@ -10,7 +10,7 @@ import (
 // ---------------------------------------------------------------- values
 
 var strPool = []string{"x", "hello", "", "a/b", "t~1", "ü", "日本", "\u0000z", "q\"uote", "sp ace", "😀", "line\nbreak", "$set", "a.b"}
-var docKeys = []string{"a", "b", "c", "k1", "k2", "arr", "obj", "x/y", "t~0", "ü"}
+var docKeys = []string{"a", "b", "c", "k1", "k2", "arr", "obj", "x/y", "t~0", "ü", "p~1q", "~01", "a~0~1b/"}
 
 func GenPrim(g *kernel.Rng) interface{} {
 	switch g.Intn(10) {
@@ -233,7 +233,7 @@ func (c *genCtx) localEv(r int, tags bool) Ev {
 		switch {
 		case c.g.Chance(1, 5):
 			e.Via = 1
-		case c.prop == "C03" && c.g.Chance(1, 6):
+		case (c.prop == "C03" || c.prop == "C09") && c.g.Chance(1, 6):
 			e.Via = 2
 		}
 	}
@@ -287,11 +287,11 @@ func Gen(prop, tier string, seed uint64) *kernel.Plan {
 		nk = g.Range(1, 2)
 		c.hot = g.Range(0, 1)
 	}
-	pool := []string{"k1", "k2", "a", "b", "arr", "x/y", "ü", "t~0"}
+	pool := []string{"k1", "k2", "a", "b", "arr", "x/y", "ü", "t~0", "p~1q", "~01"}
 	for i := 0; i < nk; i++ {
 		c.keys = append(c.keys, pool[g.Intn(len(pool))])
 	}
-	if prop == "C15" {
+	if prop == "C15" || prop == "C10" {
 		c.maxB = 30
 	}
 	switch prop {
@@ -395,7 +395,7 @@ func Gen(prop, tier string, seed uint64) *kernel.Plan {
 			case 1:
 				tx.Fail, tx.A = 2, g.Intn(6)
 			}
-			if prop != "C09" && prop != "C03" && prop != "C15" && prop != "C10" {
+			if prop == "C19" {
 				tx.Fail = 0
 			}
 			evs = append(evs, tx)
